@@ -440,6 +440,9 @@ func (i IRI) Contains(what IRI, checkScheme bool) bool {
 
 func (i IRI) ItemsMatch(col ...Item) bool {
 	for _, it := range col {
+		if IsNil(it) {
+			return false
+		}
 		if match := it.GetLink().Contains(i, false); !match {
 			return false
 		}
